@@ -650,6 +650,9 @@ def main():
         Path(args.json).write_text(json.dumps({"repo_head": head, "verif_head": vhead, "summary": summarise(results), "results": results}, indent=1) + "\n")
     if args.md:
         before = json.loads(Path(args.before).read_text())["results"] if args.before else None
+        cur = {m["id"]: m["expect"] for m in MUTANTS}
+        for r in before or []:      # the before-table uses the FINAL classification of each mutant (see `why` for the revised ones)
+            r["expect"] = cur.get(r["id"], r["expect"])
         write_md(args.md, results, before)
 
 
